@@ -18,6 +18,7 @@ import (
 	"testing"
 	"time"
 
+	"github.com/jech/storrent/config"
 	"verifharness/fixture"
 	"verifharness/refwire"
 	"verifharness/swarm"
@@ -242,6 +243,10 @@ func history(t *testing.T, c *vk.C, rng *rand.Rand, i int) map[string]int {
 	st := map[string]int{}
 	swarm.Run(t, c, "C05", func(sw *swarm.Swarm) {
 		magnet := i%3 == 2
+		if i%4 == 1 {
+			// idle prefetch on: the torrent picks pieces by itself (also from what peers told it: allowed-fast sets, availability)
+			config.SetIdleRate(64 * 1024)
+		}
 		g := fixture.RandGeo(rng, 1<<20, []uint32{16 << 10, 32 << 10, 128 << 10})
 		tr := sw.AddTorrent(g, swarm.TorOpts{Magnet: magnet})
 		// second torrent with its own canary
@@ -396,7 +401,7 @@ func TestCheck(t *testing.T) {
 			continue
 		}
 		rng := r.Env.Rng(i)
-		d := map[string]any{"family": "hostile-sequence", "magnet": i%3 == 2}
+		d := map[string]any{"family": "hostile-sequence", "magnet": i%3 == 2, "idle_prefetch": i%4 == 1}
 		c := r.Begin(i, d)
 		st := history(t, c, rng, i)
 		for k, v := range st {
